@@ -211,7 +211,8 @@ CLAIMS = {
              "Tied to the code by two streams: random operation histories on the REAL ast package / Memoize / Any / Optional / SeqOf "
              "with every pool value re-rendered after every operation and compared with the machine, and parse-level probes that "
              "render every parser's result at return time and again at the end of the parse.",
-        note="Known finding D5 (RightTrim mutates shared nodes in place) is reported as KNOWN-FINDING, identified by its structural "
+        note="TIED BY TRANSLATION at heap level (Props/C07P.lean): ast.SetReaderPos, NodeList.SetReaderPos and the SetReaderPos methods of the node types are translated from /repo on every run (node cells and slice headers on a heap) and the slice machine is proved to agree with them, in place, including the frame (c07_translated_setReaderPos, _op, _frame - the D5 witness history runs on the translated code); AppendNode / NodeList.Append, the sequence buffer and result handler are pinned by their slice-operation skeletons, Memoize / Any / Optional by structural facts and by the value-level tie C01P. "
+             "Known finding D5 (RightTrim mutates shared nodes in place) is reported as KNOWN-FINDING, identified by its structural "
              "signature. The linear-use discipline of un-cached lists is enforced by the machine and is how the combinators use them.",
         technique="Lean 4 frame/invariant proof over operation histories on a slice heap (every growth policy) + two differential streams (operation histories on the real ast/combinator code; parse-level render-at-return probes)"),
     "C08": dict(
@@ -273,7 +274,8 @@ CLAIMS = {
              "free position are unknown (c11_unknown, an iff), the lookup never indexes out of range (c11_nopanic), CRLF normalisation "
              "characterised (c11_crlf); the binary searches are Go's sort.Search loop. Tied to parsley/file_set.go and text/file.go by a "
              "differential run over random file sets x every global position and by regenerated constants/expressions.",
-        note="TIED BY TRANSLATION (Props/C11P.lean): NewFileSet / AddFile / FileSet.Position (parsley.File dispatched to the translated text.File methods) and Position.String are translated from /repo on every run and proved equal to the model (c11_translated_functions); the round trip is restated about the translated code (c11p_roundtrip, c11p_unknown). ErrorWithPosition is not translated (opaque error / fmt.Errorf); its ingredients are. "
+        note="text.NewFile (CRLF normalisation, default offset) is translated and tied too (c11p_newFile, c11p_replace_is_normCRLF). "
+             "TIED BY TRANSLATION (Props/C11P.lean): NewFileSet / AddFile / FileSet.Position (parsley.File dispatched to the translated text.File methods) and Position.String are translated from /repo on every run and proved equal to the model (c11_translated_functions); the round trip is restated about the translated code (c11p_roundtrip, c11p_unknown). ErrorWithPosition is not translated (opaque error / fmt.Errorf); its ingredients are. "
              "sort.Search and bytes.Replace are re-implemented from their documentation; the lazily built line table is modelled as computed eagerly.",
         technique="Lean 4 theorems (induction over AddFile, binary-search lemma, line table) + differential correspondence + regenerated facts"),
     "C12": dict(
